@@ -202,9 +202,40 @@ def origin_point_cases():
             yield {'name': name, 'ok': bool(ok), 'detail': detail}
 
 
+def dict_order_cases():
+    """the adsorbate and adsorbent parameter sets are dictionaries: the same numbers under the same names give the same widths
+    whatever order the keys were written in (sorted by name, reversed, as a JSON round trip leaves them)"""
+    import warnings
+    import pygaps
+    pygaps.logger.disabled = True
+    import pygaps.characterisation.psd_micro as PMi
+    from pygaps.characterisation.models_hk import get_hk_model
+    mat = dict(get_hk_model('Carbon(HK)'))
+    p = numpy.geomspace(1e-7, 0.05, 10)
+    n = numpy.linspace(0.8, 7.0, 10)
+    orders = {'sorted_by_name': lambda d: {k: d[k] for k in sorted(d)}, 'reversed': lambda d: {k: d[k] for k in list(d)[::-1]}}
+    for model, f in (('HK', PMi.psd_horvath_kawazoe), ('RY', PMi.psd_horvath_kawazoe_ry)):
+        for geom in ('slit', 'cylinder'):
+            with warnings.catch_warnings():
+                warnings.simplefilter('ignore')
+                ref = numpy.asarray(f(p, n, 77.355, geom, dict(ADS), dict(mat))[0], dtype=float)
+                for oname, reorder in orders.items():
+                    for which in ('adsorbate', 'material'):
+                        try:
+                            a = reorder(dict(ADS)) if which == 'adsorbate' else dict(ADS)
+                            m = reorder(dict(mat)) if which == 'material' else dict(mat)
+                            got = numpy.asarray(f(p, n, 77.355, geom, a, m)[0], dtype=float)
+                            ok = got.shape == ref.shape and bool(numpy.allclose(got, ref, rtol=1e-9))
+                            detail = '' if ok else f"widths {got[:4]} vs {ref[:4]} with the documented key order"
+                        except Exception as exc:
+                            ok, detail = False, f"{type(exc).__name__}: {exc}"[:160]
+                        yield {'name': f"parameter_dictionary_key_order|{model}|{geom}|{which}_{oname}", 'ok': ok, 'detail': detail}
+
+
 def bounded_cases(seed, thorough=False):
     yield from transcribed_cases(thorough)
     yield from origin_point_cases()
+    yield from dict_order_cases()
     import pygaps
     pygaps.logger.disabled = True
     import pygaps.characterisation.psd_micro as PMi
